@@ -285,14 +285,26 @@ func (c *Client) setState(new util.ClientState) {
 // notifyStateChange sends last state change to a channel. The channel is read
 // by keep-alive goroutine which uses the new state to schedule the next issue
 // of keep-alive packet.
+//
+// It never blocks the caller (the receive loop or an API call): if the
+// keep-alive goroutine has not picked up the previous state yet, that state is
+// stale and is replaced by the new one.
 func (c *Client) notifyStateChange(s util.ClientState) {
 	if c.cfg.KeepAlive == 0 {
 		return
 	}
-	select {
-	case c.stateChangeCh <- s:
-	case <-c.groupCtx.Done():
-		return
+	for {
+		select {
+		case c.stateChangeCh <- s:
+			return
+		case <-c.groupCtx.Done():
+			return
+		default:
+		}
+		select {
+		case <-c.stateChangeCh:
+		default:
+		}
 	}
 }
 
@@ -492,7 +504,12 @@ func (c *Client) PublishPredefined(topicID uint16, payload []byte, qos uint8, re
 
 // Ping sends a PING packet to the MQTT-SN gateway.
 func (c *Client) Ping() error {
+	return c.ping(false)
+}
+
+func (c *Client) ping(keepalive bool) error {
 	transaction := newPingTransaction(c)
+	transaction.keepalive = keepalive
 	ping := pkts1.NewPingreq(nil)
 	c.transactions.StoreByType(pkts.PINGREQ, transaction)
 	transaction.Proceed(nil, ping)
@@ -503,6 +520,11 @@ func (c *Client) Ping() error {
 	case <-transaction.Done():
 		return transaction.Err()
 	case <-c.groupCtx.Done():
+		if keepalive {
+			// The keep-alive goroutine is a member of the group: it must not
+			// wait for the group (i.e. for itself) to finish.
+			return nil
+		}
 		return c.group.Wait()
 	}
 }
